@@ -10,7 +10,7 @@ import random
 
 from harness import opsreplay, par, schemagamma, tlc
 
-DEFAULTS = {"Int": "3", "String": '"s"', "ID": '"i"', "In2": "{}", "In": "{}", "E": "A"}
+DEFAULTS = {"Int": "3", "String": '"s"', "ID": '"i"', "In2": "{}", "In": "{}", "E": "A", "Tree": "{}"}
 
 
 def with_defaults(t):
@@ -39,6 +39,10 @@ def render_item(item):
         return "schema { query: %s }" % item["target"]
     if item["it"] == "schemaext":
         return "extend schema { mutation: %s }" % item["target"]
+    if item["it"] == "dir":
+        d = item["t"]
+        fixed = _lit_defaults(with_defaults({"k": "object", "fields": [{"args": d["args"]}]}))["fields"][0]["args"]
+        return "directive @%s%s on %s" % (d["name"], schemagamma.render_args(fixed), " | ".join(d["locs"]))
     text = schemagamma.render_type(_lit_defaults(t), extend=(item["it"] == "ext"))
     return text
 
@@ -64,7 +68,8 @@ def norm_expected(schema):
         for k in ("ifaces", "fields", "members", "values"):
             t.setdefault(k, [])
         types.append(t)
-    a = {"query": schema["query"], "mutation": schema.get("mutation", ""), "subscription": schema.get("subscription", ""), "types": types, "directives": []}
+    a = {"query": schema["query"], "mutation": schema.get("mutation", ""), "subscription": schema.get("subscription", ""), "types": types,
+         "directives": [dict(d) for d in schema.get("directives", [])]}
     return schemagamma.normalize(a, with_defaults=False)
 
 
@@ -201,7 +206,8 @@ def run(chk):
     rng.shuffle(cases)
     # focused scopes: few items, more of them per document, always replayed in full
     for name, idx, n in (("split extension blocks", {9, 42, 43, 44}, 5), ("supplied enum / scalar, extended", {5, 8, 14, 37}, 5),
-                         ("covariant list fields", {38, 39, 40, 41}, 4), ("root operation types", {9, 10, 25, 26, 31, 32}, 5), ("interface / input extension fields", {2, 6, 33, 34, 35}, 5)):
+                         ("covariant list fields", {38, 39, 40, 41}, 4), ("root operation types", {9, 10, 25, 26, 31, 32}, 5), ("interface / input extension fields", {2, 6, 33, 34, 35}, 5),
+                         ("directive definitions next to extensions", {5, 6, 14, 15, 45, 46, 47, 50}, 5), ("recursive defaults and integer bounds", {7, 48, 49}, 4)):
         cfg = tlc.cfg(constants={"MaxItems": n, "MenuIdx": idx, "Slice": 0, "NSlices": 1}, invariants=["Emit", "OrderFree"])
         rf = chk.tlc("GqlSdl", cfg, tags=["BLD"], label="GqlSdl focus: %s, items<=%d" % (name, n), heap="4g")
         if rf.rc != 0:
